@@ -133,6 +133,34 @@ func realBuild(base, root, rp string, query *string) built {
 	return out
 }
 
+// otherConstructors builds the same request through NewDeleteRequest and NewJsonRequest (all go
+// through newRequest) and reports whether their URLs equal the GET request's.
+func otherConstructors(base, root, rp string, query *string, want string) string {
+	out := ""
+	hx.Recover(func() {
+		b, err := url.Parse(base)
+		if err != nil {
+			return
+		}
+		c := &restli.Client{HostnameResolver: &restli.SimpleHostnameResolver{Hostname: b}}
+		var q restli.QueryParamsEncoder
+		if query != nil {
+			q = restli.QueryParamsString(*query)
+		}
+		del, err := restli.NewDeleteRequest(c, context.Background(), rpath{root, rp}, q, restli.Method_delete)
+		if err != nil || del.URL.String() != want {
+			out = "NewDeleteRequest"
+			return
+		}
+		body := restlicodec.MarshalerFunc(func(w restlicodec.Writer) error { w.WriteRawBytes([]byte("{}")); return nil })
+		js, err := restli.NewJsonRequest(c, context.Background(), rpath{root, rp}, q, "PUT", restli.Method_update, body, nil)
+		if err != nil || js.URL.String() != want {
+			out = "NewJsonRequest"
+		}
+	})
+	return out
+}
+
 func (b built) render() string {
 	if b.status == "ok" {
 		return renderURL(b.url)
@@ -396,12 +424,17 @@ func runFmt(cfg Config, r *hx.Result, base, root, rp string, query *string) {
 		} else {
 			u := b.url
 			got := u.EscapedPath()
+			endsInRoot := len(d.segs) > 0 && d.segs[len(d.segs)-1] == root
+			unstripped := "/" + strings.Join(d.segs, "/") + rp
 			switch {
-			case got != want && dots && got == removeDots(want):
+			case got == want:
+			case dots && got == removeDots(want):
 				fail("C15 dot segments removed from the path (rest intact)", "path "+want)
-			case got != want && !dots && len(d.segs) > 0 && d.segs[len(d.segs)-1] == root && got == "/"+strings.Join(d.segs, "/")+rp:
+			case !dots && endsInRoot && got == unstripped:
 				fail("C15 root segment twice: context ending in the root not stripped (an earlier segment starts with the root name)", "path "+want)
-			case got != want:
+			case dots && endsInRoot && got == removeDots(unstripped):
+				fail("C15 dot segments removed from the path and root segment twice (both known defects at once)", "path "+want)
+			default:
 				fail("C15 path not preserved", "path "+want)
 			}
 			if u.Scheme != strings.ToLower(d.scheme) || u.Host != d.host {
@@ -421,6 +454,12 @@ func runFmt(cfg Config, r *hx.Result, base, root, rp string, query *string) {
 				}
 				if s := u.String(); s != wantS && s != strings.TrimSuffix(wantS, "?") {
 					fail("C15 URL text differs", wantS)
+				}
+				if r.OracleCases%16 == 0 {
+					if bad := otherConstructors(base, root, rp, query, u.String()); bad != "" {
+						fail("C15 request constructors disagree: "+bad, u.String())
+					}
+					r.Count("D:other-constructors-checked")
 				}
 				if b.wire != "" {
 					wl := "GET " + full + " HTTP/1.1"
